@@ -1,6 +1,7 @@
 package stream
 
 import (
+	"bytes"
 	"fmt"
 	"os"
 	"strings"
@@ -73,6 +74,28 @@ func (g *gen) realEncodings() {
 			}
 			g.runReal(c)
 		}
+	}
+	// compressible client streams with gzip Content-Encoding: Content-Length
+	// (h1) vs chunked vs h2 without a length
+	for _, lane := range []string{"h1", "h1-chunked", "h2c"} {
+		for _, tc := range []tcombo{{"http", "json", "gzip"}, {"http", "proto", "gzip"}} {
+			for _, q := range []struct {
+				limit int
+				kinds []string
+			}{{0, []string{"R3000", "T", "R3000"}}, {1000, []string{"AR", "P300", "AR"}}, {0, []string{"P2000", "D300", "E"}}} {
+				c := &Case{Lane: lane, T: tc.T, Codec: tc.Codec, CE: "gzip", Shape: "cs", Limit: q.limit, Trunc: -1, Sched: "encoded-delivery"}
+				c.Msgs = g.msgs(q.kinds, tc, q.limit)
+				c.Reply = [][]byte{g.reply(len(q.kinds))}
+				build(c, bodyOpt{})
+				if lane != "h1" {
+					c.Cuts = g.randomCuts(len(c.Body))
+				}
+				g.runReal(c)
+			}
+		}
+		c := &Case{Lane: lane, T: "http", Codec: "httpbody", CE: "gzip", Shape: "upload", Limit: 64, Trunc: -1, Sched: "encoded-delivery", Msgs: [][]byte{bytes.Repeat([]byte{'a'}, 5000)}, Reply: [][]byte{{}}}
+		build(c, bodyOpt{})
+		g.runReal(c)
 	}
 	// HttpBody uploads / downloads of every media type over sockets
 	for i, ct := range bodyTypes {
